@@ -10,14 +10,21 @@ vars == <<fs, cfg, hist>>
 View == <<fs, cfg>>
 NameClasses == {"plain", "space", "nonascii", "hash", "query", "semi", "colon", "subdir", "percent", "abs"}
 V == IF Variant = "repaired" THEN Repaired ELSE Original
+Formats == {"json", "xml", "provn", "rdf"}
+Faults == {<<>>} \cup {<<[at |-> "move", k |-> 0, short |-> "none"]>>}
+          \cup {<<[at |-> "write", k |-> k, short |-> sh]>> : k \in 1..4, sh \in {"none", "half", "most"}}
+(* (B): every configuration x crash point as one Save call for the driver *)
+SaveActs(c) == { [op |-> "Save", fmt |-> f, name |-> c.name, existing |-> c.existing,
+                  crossFs |-> c.crossFs, fault |-> ft] : f \in Formats, ft \in Faults }
 Init == /\ cfg \in [name : NameClasses, existing : BOOLEAN, crossFs : BOOLEAN, nchunks : 1..3]
         /\ fs = FsInit(cfg.existing)
         /\ hist = <<>>
+        /\ (Emit = "all" /\ cfg.nchunks = 1) => \A a \in SaveActs(cfg) : PrintT("TR " \o ToJson(<<a>>))
 Next == \E n \in FsNextStates(V, fs, cfg.name, cfg.crossFs, cfg.nchunks) :
           /\ fs' = n /\ cfg' = cfg /\ hist' = Append(hist, n.pc)
 Spec == Init /\ [][Next]_vars
 Atomic == AtomicOK(fs)
 Exact == ExactOK(fs)
 (* a failure never makes the named file worse than it was, and success is reachable *)
-NoDamage == fs.pc = "failed" => fs.named \in {IF cfg.existing THEN "old" ELSE "absent", "new"}
+NoDamage == fs.pc \in {"failed", "cleaned"} => fs.named \in {IF cfg.existing THEN "old" ELSE "absent", "new"}
 =============================================================================
